@@ -170,20 +170,20 @@ example :
     probes on any branches (the flag scheme: a fresh i32 local set in front of the branch and cleared behind it, the probe guarded by it
     behind the `end` of every construct the branch can leave to) and function entry / exit code — any number of each, in any
     combination —, the encoded body is what the machine `specRunF` (Lemmas/StackFull.lean) computes, and the lowering adds exactly the
-    flag locals the machine counts. Only instruction-level alternates are outside. -/
+    flag locals the machine counts. Instruction-level alternates are inside too: the resolver leaves them alone (a removed region empties
+    them, a block alternate on the same opener is appended to them) and the machine writes them in place of the instruction. -/
 theorem c22_resolver_is_the_complete_machine (f : Func) (hsp : f.hasSpecial = true) (hp : ∀ x ∈ f.body, PlainF x) (out : List Tok)
     (nlf : Nat) (hs : specRunF (f.body.length - 1) (entryToks f) f.exit 0 [{}] none f.nlocals f.body = some (out, nlf)) :
     lower f = (out, f.added + (nlf - f.nlocals)) :=
   lower_eq_specF f hsp hp out nlf hs
 
-/-- **…from the API down**: any parsed function, any sequence of injection-API calls that does not select the instruction-level
-    `alternate` mode — the API itself keeps every plan inside the machine's scope (it panics on what would leave it), so what is
-    encoded is what the machine says. -/
+/-- **…from the API down**: any parsed function, **any** sequence of injection-API calls — the API itself keeps every plan inside the
+    machine's scope (it panics on what would leave it), so what is encoded is what the machine says. -/
 theorem c22_every_api_plan_lowers_as_the_machine (f0 f : Func) (ops : List ApiOp) (h0 : ∀ x ∈ f0.body, Pristine x)
-    (hops : ∀ op ∈ ops, op.noAlt = true) (ha : applyAll f0 ops = some f) (hsp : f.hasSpecial = true) (out : List Tok) (nlf : Nat)
+    (ha : applyAll f0 ops = some f) (hsp : f.hasSpecial = true) (out : List Tok) (nlf : Nat)
     (hs : specRunF (f.body.length - 1) (entryToks f) f.exit 0 [{}] none f.nlocals f.body = some (out, nlf)) :
     lower f = (out, f.added + (nlf - f.nlocals)) :=
-  api_plan_lowers_as_machine f0 f ops h0 hops ha hsp out nlf hs
+  api_plan_lowers_as_machine f0 f ops h0 ha hsp out nlf hs
 
 /-- **no function-level probe is lost, whatever else the plan contains** -/
 theorem c22_no_function_level_probe_is_lost (f : Func) (hsp : f.hasSpecial = true) (hp : ∀ x ∈ f.body, PlainF x) (out : List Tok)
@@ -227,6 +227,20 @@ example :
                "EX", "return", "end", "local.get:3", "if", "S", "end", "A1", "end", "EX", "end"], 4)
     ∧ lower f = (["EN", "block:functype", "block", "E1", "R", "Bx", "i32.const:1", "local.set:3", "br_if 0", "i32.const:0", "local.set:3", "S",
                "EX", "return", "end", "local.get:3", "if", "S", "end", "A1", "end", "EX", "end"], 1) := by
+  decide
+
+/-! non-vacuity (decided): instruction-level alternates next to special modes — an opener that carries both an alternate `A` and a block
+    alternate `R` (the code appends: `A R`), a `nop` replaced by `N1 N2` behind its `before` code, an instruction replaced by nothing
+    inside a block with an exit probe; entry code in front -/
+set_option maxRecDepth 20000 in
+example :
+    let body : List Instr :=
+      [{ mkI "block" .block with alt := some ["A"], blockAlt := some ["R"] }, mkI "x" .other, mkI "end" .end_,
+       { mkI "nop" .other with alt := some ["N1", "N2"], before := ["B"] },
+       { mkI "block" .block with blockExit := ["X"] }, { mkI "y" .other with alt := some [] }, mkI "end" .end_, mkI "end" .end_]
+    let f : Func := { body := body, hasSpecial := true, entry := ["EN"] }
+    specRunF 7 (entryToks f) f.exit 0 [{}] none 0 body = some (["EN", "A", "R", "B", "N1", "N2", "block", "X", "end", "end"], 0)
+    ∧ lower f = (["EN", "A", "R", "B", "N1", "N2", "block", "X", "end", "end"], 0) := by
   decide
 
 end Orca.Lower
